@@ -15,7 +15,7 @@ R(X) == RandomElement(X)
 Labels == {"", "a", "ab", "C", "z", "y", "r", "t", "w", "x", "L", "R", "simple_challenge", "multiproof", "ipa", "input point", "long40"}
 \* "mbuf", "sacc", "acc": the driver hands over the SAME slice / scalar variable / element variable each time, changed in place since its last use
 Msgs   == {"", "a", "ab", "b32", "b100", "b1000", "b1023", "b1024", "b1025", "b4096", "b5000", "b70000", "mbuf", "mbuf"}
-Scalars == {"0", "1", "5", "r-1", "r-2", "2^128", "rnd1", "rnd2", "sacc", "sacc"}
+Scalars == {"0", "1", "5", "r-1", "r-2", "2^128", "rnd1", "rnd2", "sacc", "mont:1", "mont:5", "mont:2^64-1", "mont:2^64"}     \* mont:k = the scalar whose stored (Montgomery) words are k
 Points  == {"gen", "id", "srs0", "srs255", "gen.z2", "gen.flip", "srs7.zrnd", "2gen.proj", "id.flip", "acc", "acc", "acc"}
 Op(o, l, m) == [op |-> o, label |-> l, arg |-> m]
 VARIABLES prog
